@@ -1,6 +1,7 @@
 package eng
 
 import (
+	"os"
 	"bufio"
 	"fmt"
 	"io"
@@ -52,6 +53,13 @@ func StartSolver(kind string, timeoutMs int) (*Solver, error) {
 		return nil, err
 	}
 	s := &Solver{Kind: kind, cmd: cmd, in: in, out: bufio.NewReaderSize(out, 1<<20), defined: map[int]bool{}, timeoutMs: timeoutMs}
+	if d := os.Getenv("VERIF_SMT_LOG"); d != "" {
+		solverSeq++
+		f, err := os.Create(fmt.Sprintf("%s/%s-%d-%d.smt2", d, kind, os.Getpid(), solverSeq))
+		if err == nil {
+			s.Log = f
+		}
+	}
 	if kind == "cvc5" {
 		s.send("(set-logic ALL)\n")
 	} else {
@@ -138,6 +146,11 @@ func refName(t *Term) string {
 	return smtName(t)
 }
 
+var solverSeq int
+
+// BVSolver is the solver used for bit-vector/Boolean queries (z3 5.1.0; z3 4.8.12 ignores its timeout on some ite-heavy queries).
+var BVSolver = "z3-new"
+
 type Model map[string]uint64
 
 // Check decides satisfiability of the conjunction of as. On sat the values of vars are returned.
@@ -163,7 +176,7 @@ func (s *Solver) Check(as []*Term, vars []*Term) (string, Model) {
 		s.kill()
 		return "unknown", nil
 	}
-	res, ok := s.readLineTimeout(time.Duration(s.timeoutMs)*time.Millisecond*2 + 5*time.Second)
+	res, ok := s.readLineTimeout(time.Duration(s.timeoutMs)*time.Millisecond*3/2 + 2*time.Second)
 	if !ok {
 		s.kill()
 		return "unknown", nil
@@ -460,7 +473,7 @@ func (p *Pool) Close() {
 
 // Solve picks the solver by theory content: FP operations go to cvc5, the rest to z3.
 func (p *Pool) Solve(as []*Term, vars []*Term) (string, Model, string) {
-	kind := "z3"
+	kind := BVSolver
 	for _, a := range as {
 		if a.HasFPOp() {
 			kind = "cvc5"
